@@ -34,22 +34,22 @@ TupSeq(t) == t    \* JSON arrays are sequences already
 
 Advance(tags) ==
   /\ l' = l + 1
-  /\ dead' = (dead \/ tags # {})
-  /\ Flag(l, IF dead THEN {} ELSE tags)
+  /\ dead' = dead \cup PropsOf(tags)
+  /\ Flag(l, LiveTags(tags, dead))
 
 ScaleTags(ns) ==
   IF MaskSet(e.m) = allowed' THEN {}
-  ELSE IF e.m = 0 THEN {"C07:empty-scale"}
-  ELSE IF \E i \in 1..Len(ns) : ns[i] > 11 THEN {"C20:note-clamp", "C07:scale-state"}
-  ELSE {"C07:scale-state"}
+  ELSE IF e.m = 0 THEN {<<"C07", "empty-scale">>}
+  ELSE IF \E i \in 1..Len(ns) : ns[i] > 11 THEN {<<"C20", "note-clamp">>, <<"C07", "scale-state">>}
+  ELSE {<<"C07", "scale-state">>}
 
 \* stairstep / fraction consistency of one reported conversion
 C19Tags(n, sk, fmin, fmax, eu, inrange, fresh, kept) ==
-       (IF n < 0 \/ n > 131 \/ sk # StairKey(IF n < 0 \/ n > 131 THEN 0 ELSE n) THEN {"C19:stairstep"} ELSE {})
-  \cup (IF eu > 2 THEN {"C19:sum"} ELSE {})
+       (IF n < 0 \/ n > 131 \/ sk # StairKey(IF n < 0 \/ n > 131 THEN 0 ELSE n) THEN {<<"C19", "stairstep">>} ELSE {})
+  \cup (IF eu > 2 THEN {<<"C19", "sum">>} ELSE {})
   \cup (IF fresh /\ inrange /\ allowed' = 0..11 /\ (fmin < -TolU \/ fmax >= SU + TolU)
-          THEN {"C19:fraction-chromatic"} ELSE {})
-  \cup (IF kept /\ (fmin < -HystU - TolU \/ fmax > SU + HystU + TolU) THEN {"C19:fraction-window"} ELSE {})
+          THEN {<<"C19", "fraction-chromatic">>} ELSE {})
+  \cup (IF kept /\ (fmin < -HystU - TolU \/ fmax > SU + HystU + TolU) THEN {<<"C19", "fraction-window">>} ELSE {})
 
 CvTags ==
   LET ur      == e.u
@@ -61,11 +61,11 @@ CvTags ==
       n       == e.n
       okKeep  == loose /\ n = last
       okFree  == ~strict /\ n >= 0 /\ n <= Top /\ Accept(allowed, uc, n)
-  IN   (IF n < 0 \/ n > Top \/ (n % PC) \notin allowed THEN {"C07:forbidden-note"} ELSE {})
-  \cup (IF ~hist /\ ~okFree THEN {"C08:nearest"} ELSE {})
-  \cup (IF hist /\ strict /\ n # last THEN {"C09:not-stable"} ELSE {})
-  \cup (IF hist /\ ~okKeep /\ ~okFree /\ ~(strict /\ n # last) THEN {"C09:not-memoryless"} ELSE {})
-  \cup (IF hist /\ ~edited /\ prevU # NoPrev /\ ~e.nan /\ ur >= prevU + TolU /\ n < last THEN {"C09:not-monotone"} ELSE {})
+  IN   (IF n < 0 \/ n > Top \/ (n % PC) \notin allowed THEN {<<"C07", "forbidden-note">>} ELSE {})
+  \cup (IF ~hist /\ ~okFree THEN {<<"C08", "nearest">>} ELSE {})
+  \cup (IF hist /\ strict /\ n # last THEN {<<"C09", "not-stable">>} ELSE {})
+  \cup (IF hist /\ ~okKeep /\ ~okFree /\ ~(strict /\ n # last) THEN {<<"C09", "not-memoryless">>} ELSE {})
+  \cup (IF hist /\ ~edited /\ prevU # NoPrev /\ ~e.nan /\ ur >= prevU + TolU /\ n < last THEN {<<"C09", "not-monotone">>} ELSE {})
   \* "kept by the hysteresis window": the previous note is reported although the memoryless rule
   \* would not report it for this input (or the input is certainly inside the window)
   \cup C19Tags(n, e.sk, e.fq, e.fq, IF inrange THEN e.eu ELSE Min2(e.eu, e.ec), inrange, ~hist,
@@ -77,7 +77,7 @@ TNew ==
   /\ e.op = "new"
   /\ allowed' = 0..11 /\ hist' = FALSE /\ last' = 0
   /\ prevU' = NoPrev /\ edited' = FALSE
-  /\ l' = l + 1 /\ dead' = FALSE
+  /\ l' = l + 1 /\ dead' = {}
 
 TAllow ==
   /\ e.op = "al"
@@ -104,8 +104,8 @@ TConvert ==
 RunTags ==
   LET A == MaskSet(e.m)
       n == e.n
-  IN   (IF n < 0 \/ n > Top \/ (n % PC) \notin A THEN {"C07:forbidden-note"} ELSE {})
-  \cup (IF n < 0 \/ n > Top \/ ~Accept(A, Clamp(e.lo), n) \/ ~Accept(A, Clamp(e.hi), n) THEN {"C08:nearest"} ELSE {})
+  IN   (IF n < 0 \/ n > Top \/ (n % PC) \notin A THEN {<<"C07", "forbidden-note">>} ELSE {})
+  \cup (IF n < 0 \/ n > Top \/ ~Accept(A, Clamp(e.lo), n) \/ ~Accept(A, Clamp(e.hi), n) THEN {<<"C08", "nearest">>} ELSE {})
   \cup C19Tags(n, e.sk, e.fmin, e.fmax, e.eu, TRUE, TRUE, FALSE)
 
 TRun ==
@@ -114,9 +114,9 @@ TRun ==
   /\ prevU' = NoPrev /\ edited' = FALSE
   /\ Advance(RunTags)
 
-TPanic == /\ e.op = "panic" /\ UNCHANGED <<qVars, prevU, edited>> /\ Advance({"C17:panic"})
+TPanic == /\ e.op = "panic" /\ UNCHANGED <<qVars, prevU, edited>> /\ Advance({<<"C17", "panic">>})
 
 TNext == l <= NRec /\ (TMeta \/ TNew \/ TAllow \/ TForbid \/ TConvert \/ TRun \/ TPanic)
-TInit == QInit /\ l = 1 /\ dead = FALSE /\ prevU = NoPrev /\ edited = FALSE /\ FlagInit
+TInit == QInit /\ l = 1 /\ dead = {} /\ prevU = NoPrev /\ edited = FALSE /\ FlagInit
 TSpec == TInit /\ [][TNext]_tvars
 =============================================================================
